@@ -1035,3 +1035,291 @@ func FamilyClock(r *Runner) {
 		}
 	}
 }
+
+// FamilyMore: scenarios added after reviewing independently seeded defects.
+func FamilyMore(r *Runner) {
+	// The lock store is ahead of object storage at start-up (crash right after
+	// the CAS), and after the restart the clock reads exactly the lock
+	// checkpoint's time, or a time between the published and the lock one.
+	for _, base := range []int{0, 254} {
+		for _, mode := range []string{"equal-lock", "between", "equal-pub"} {
+			for _, how := range []string{"crash-after-cas", "publish-failed"} {
+				r.Scenario(fmt.Sprintf("clock/ahead/b%d/%s/%s", base, how, mode), false, func(w *World) error {
+					a, err := Setup(w, base, 0)
+					if err != nil {
+						return err
+					}
+					pubTs := ParseCP(w.LockValue(), w.Name, &w.Key.PublicKey, nil).Ts
+					es := newEntries(w, "n", 2)
+					submitAll(w, a, es)
+					t := w.Go("round", a.Round)
+					if how == "crash-after-cas" {
+						w.DriveUntil(t, func(p []*Op) *Op {
+							for _, o := range p {
+								if o.Kind == "Upload" && KeyClass(o.Key) == "hash" {
+									return o
+								}
+							}
+							return nil
+						})
+					} else {
+						op := w.DriveUntil(t, func(p []*Op) *Op {
+							for _, o := range p {
+								if o.Class() == "Upload:checkpoint" {
+									return o
+								}
+							}
+							return nil
+						})
+						if op != nil {
+							w.Release(op, Fail)
+						}
+						w.FinishTask(a, t)
+					}
+					w.Crash(a)
+					w.Gate(false)
+					lockTs := ParseCP(w.LockValue(), w.Name, &w.Key.PublicKey, nil).Ts
+					b := w.NewInc("A")
+					if err := b.Load(allFlags); err != nil {
+						return nil
+					}
+					s1 := b.Submit(w.SynthEntry("late", false), false)
+					w.Settle()
+					switch mode {
+					case "equal-lock":
+						w.SetClockNext(lockTs)
+					case "between":
+						w.SetClockNext((pubTs + lockTs + 1) / 2)
+					case "equal-pub":
+						w.SetClockNext(pubTs)
+					}
+					err = b.Round()
+					w.ClearClockNext()
+					w.Settle()
+					if err != nil {
+						w.Crash(b)
+						_, err = Recover(w, "A", []*Entry{s1.Entry}, "ca")
+						return err
+					}
+					w.Check("allDone", s1)
+					return nil
+				})
+			}
+		}
+	}
+
+	// CreateLog run again on an existing, non-empty log while its two
+	// existence checks fail transiently; and a creation interrupted after
+	// Lock.Create, retried with a failing lock fetch.
+	for _, which := range []string{"both-fetches-fail", "lock-fetch-fails", "storage-fetch-fails"} {
+		r.Scenario("instances/create-over-existing-faulty/"+which, false, func(w *World) error {
+			a, err := Setup(w, 0, 0)
+			if err != nil {
+				return err
+			}
+			w.Gate(false)
+			s := a.Submit(w.SynthEntry("x", false, "X"), false)
+			w.Settle()
+			a.Round()
+			w.Check("allDone", s)
+			w.Gate(true)
+			c := w.NewInc("C")
+			t := w.Go("create", c.Create)
+			for i := 0; i < 20 && !w.IsDone(t); i++ {
+				p := w.PendingOf(c)
+				if len(p) == 0 {
+					break
+				}
+				out := OK
+				if (p[0].Kind == "LockFetch" && which != "storage-fetch-fails") || (p[0].Kind == "Fetch" && which != "lock-fetch-fails") {
+					out = Fail
+				}
+				w.Release(p[0], out)
+			}
+			w.Quiesce()
+			w.Gate(false)
+			w.Crash(a)
+			_, err = Recover(w, "A", nil, "cf")
+			return err
+		})
+	}
+	r.Scenario("instances/create-interrupted-retried", false, func(w *World) error {
+		w.Gate(true)
+		a := w.NewInc("A")
+		t := w.Go("create", a.Create)
+		op := w.DriveUntil(t, func(p []*Op) *Op {
+			for _, o := range p {
+				if o.Class() == "Upload:checkpoint" {
+					return o
+				}
+			}
+			return nil
+		})
+		if op == nil {
+			return fmt.Errorf("create did not reach the checkpoint upload")
+		}
+		w.Crash(a)
+		b := w.NewInc("A")
+		t2 := w.Go("create2", b.Create)
+		for i := 0; i < 20 && !w.IsDone(t2); i++ {
+			p := w.PendingOf(b)
+			if len(p) == 0 {
+				break
+			}
+			out := OK
+			if p[0].Kind == "LockFetch" {
+				out = Fail
+			}
+			w.Release(p[0], out)
+		}
+		w.Quiesce()
+		return nil
+	})
+
+	// A submitter whose chain has a not-yet-seen issuer is slow (its issuer
+	// upload is parked) while the same entry is submitted with a known chain,
+	// admitted and sequenced; then the slow one goes on.
+	for _, base := range []int{0, 254} {
+		for _, when := range []string{"round-completed", "round-in-progress", "same-pool"} {
+			r.Scenario(fmt.Sprintf("dedup/b%d/slow-issuer/%s", base, when), false, func(w *World) error {
+				a, err := Setup(w, base, 0)
+				if err != nil {
+					return err
+				}
+				e := w.RealEntry("slow", false, "NEWISS")
+				// the same entry submitted without any issuer: a submitter with
+				// issuers would wait for the issuer lock held by the slow one
+				alt := *e
+				alt.Issuers = nil
+				e2 := w.Intern(&alt)
+				s1 := a.Submit(e, false) // parks at the fetch of issuer NEWISS
+				w.Settle()
+				s2 := w.SubmitDriven(a, e2, false)
+				var t *Task
+				if when != "same-pool" {
+					t = w.Go("round", a.Round)
+					if when == "round-completed" {
+						for !w.IsDone(t) {
+							p := w.PendingOf(a)
+							var seq *Op
+							for _, o := range p {
+								if !isIssuerOp(o) {
+									seq = o
+									break
+								}
+							}
+							if seq == nil {
+								break
+							}
+							w.Release(seq, OK)
+						}
+					} else {
+						for i := 0; i < 4; i++ {
+							for _, o := range w.PendingOf(a) {
+								if !isIssuerOp(o) {
+									w.Release(o, OK)
+									break
+								}
+							}
+						}
+					}
+				}
+				// the slow submitter goes on
+				for i := 0; i < 10; i++ {
+					if ret, _, _ := w.SubState(s1); ret {
+						break
+					}
+					for _, o := range w.PendingOf(a) {
+						if isIssuerOp(o) {
+							w.Release(o, OK)
+							break
+						}
+					}
+				}
+				if t != nil {
+					w.FinishTask(a, t)
+				}
+				t2 := w.Go("round2", a.Round)
+				w.FinishTask(a, t2)
+				w.Check("allAcked", s1, s2)
+				d := w.SubmitDriven(a, e, false)
+				w.Check("allAcked", d)
+				return nil
+			})
+		}
+	}
+
+	// Two submitters of different entries share a not-yet-seen issuer; the
+	// first one's issuer upload is in flight (or fails) while the second is
+	// admitted and sequenced. The second submitter may be blocked on the
+	// issuer lock, which synctest does not consider durably blocked: this
+	// scenario settles by goroutine states instead.
+	for _, out := range []Outcome{OK, Fail} {
+		r.Scenario(fmt.Sprintf("issuer-race/%s", out), false, func(w *World) error {
+			a, err := Setup(w, 0, 0)
+			if err != nil {
+				return err
+			}
+			e1 := w.SynthEntry("ir1", false, "SHARED")
+			e2 := w.SynthEntry("ir2", false, "SHARED")
+			s1 := a.Submit(e1, false)
+			w.Settle() // s1 is parked at the fetch of the issuer
+			s2 := a.SubmitLoose(e2, false)
+			// a round while the first upload is still in flight: only the
+			// sequencer's operations are released
+			t := w.GoLoose("round", a.Round)
+			for i := 0; i < 40; i++ {
+				w.SettleLoose()
+				if w.IsDone(t) {
+					break
+				}
+				var seq *Op
+				for _, o := range w.PendingOf(a) {
+					if !isIssuerOp(o) {
+						seq = o
+						break
+					}
+				}
+				if seq == nil {
+					break
+				}
+				w.ReleaseLoose(seq, OK)
+			}
+			// now the first submitter's issuer operations complete (or the upload fails)
+			for i := 0; i < 10; i++ {
+				w.SettleLoose()
+				var iss *Op
+				for _, o := range w.PendingOf(a) {
+					if isIssuerOp(o) {
+						iss = o
+						break
+					}
+				}
+				if iss == nil {
+					break
+				}
+				o := OK
+				if iss.Kind == "Upload" {
+					o = out
+				}
+				w.ReleaseLoose(iss, o)
+			}
+			w.SettleLoose()
+			if !w.IsDone(t) {
+				for i := 0; i < 40 && !w.IsDone(t); i++ {
+					p := w.PendingOf(a)
+					if len(p) == 0 {
+						break
+					}
+					w.ReleaseLoose(p[0], OK)
+				}
+			}
+			w.Settle()
+			t2 := w.Go("round2", a.Round)
+			w.FinishTask(a, t2)
+			w.Check("allDone", s1, s2)
+			w.Quiesce()
+			return nil
+		})
+	}
+}
